@@ -13,7 +13,7 @@ RULE = ("(values, enumerated) every int16 value (all 65536, laid out over 16 AP 
         "Hypothesis) 4..384 AP channels assigned to 1..4 shanks (interleaved, banks, random, one-channel shanks, absent "
         "shanks), ns 600..20000 not aligned with the window, windows that are multiples of 12 from 1200, content seed "
         "over the full int16 range, drawn range/max-int (also non-SpikeGLX pairs), compress on/off, bin/cbin input, "
-        "post_check on/off. Oracle: bytes of each probe00<s>/*.ap.bin == D[:, r_[channels of shank s, sync]]; "
+        "post_check on/off, optionally a second split by the same converter object (forced over the first output, or into new folders via extra=) with another window. Oracle: bytes of each probe00<s>/*.ap.bin == D[:, r_[channels of shank s, sync]]; "
         "NP2Reconstructor output == D byte for byte; reconstructed metadata == original field for field except "
         "original_meta. Non-trivial = (range,maxint) != (0.5, 8192) or >= 2 shanks interleaved, with ns not a multiple "
         "of the stride. Distinct = case hash.")
@@ -56,7 +56,10 @@ def _structure(draw):
     spec["ns"] = ns
     return {"mode": "structure", "spec": spec, "window": window, "content_seed": draw(st.integers(0, 2 ** 31)),
             "content_mode": draw(st.sampled_from(["full", "full", "smooth"])), "compress": draw(st.booleans()),
-            "cbin_in": draw(st.booleans()), "post_check": draw(st.booleans()), "recon_compress": draw(st.booleans())}
+            "cbin_in": draw(st.booleans()), "post_check": draw(st.booleans()), "recon_compress": draw(st.booleans()),
+            # a second split by the SAME converter object: forced over the first output, or into new folders (extra=...)
+            "rerun": draw(st.sampled_from([None, None, "overwrite", "extra"])),
+            "window2": 12 * draw(st.integers(100, 400 if big else 1700))}
 
 
 def strategy(tier):
@@ -115,35 +118,37 @@ def run_case(case, ctx):
         r = ctx.call("C03.init_params", conv.init_params, nwindow=window)
         if r is ctx.CRASH:
             return
-        status = ctx.call("C03.process", conv.process)
         try:
-            conv.sr.close()
-        except Exception:  # noqa
-            pass
-        if status is ctx.CRASH:
-            return
-        if not ctx.check(status == 1, "C03.status", lambda: f"process() returned {status}"):
-            return
-        folders = np2.shank_folders(root)
-        if not ctx.check([f.name for f in folders] == ["probe00" + chr(97 + s) for s in shanks], "C03.folders",
-                         lambda: f"shank folders {[f.name for f in folders]} for shanks {shanks}"):
-            return
-        for s, fold in zip(shanks, folders):
-            f = np2.find_data(fold, "ap")
-            if not ctx.check(f is not None and (f.suffix == ".cbin") == bool(opts["compress"]), "C03.ap_file", lambda: f"ap file of shank {s}: {f}"):
+            status = ctx.call("C03.process", conv.process)
+            if status is ctx.CRASH:
                 return
-            cols = np.r_[np.flatnonzero(shank == s), nap]
-            exp = D[:, cols]
-            got = np2.read_raw(f, len(cols))
-            if not ctx.check(got.shape == exp.shape and np.array_equal(got, exp), "C03.split_bytes",
-                             lambda: f"shank {s}: split AP file differs from the original columns ({_diff(got, exp)})"):
+            if not ctx.check(status == 1, "C03.status", lambda: f"process() returned {status}"):
                 return
-            # the shank file opens through the reader with a matching shape
-            srs = ctx.call("C03.open_shank", sg.Reader, f, sort=False)
-            if srs is ctx.CRASH:
+            if not _verify_split(ctx, sg, root, D, shank, shanks, nap, opts, ""):
                 return
-            ctx.check(srs.shape == exp.shape, "C03.shank_shape", lambda: f"shank {s} reader shape {srs.shape} != {exp.shape}")
-            srs.close()
+            rerun = opts.get("rerun")
+            if rerun:
+                ctx.label("rerun_same_converter_" + rerun)
+                extra = "_b" if rerun == "extra" else ""
+                r = ctx.call("C03.init_params", conv.init_params, nwindow=opts["window2"], extra=extra)
+                if r is ctx.CRASH:
+                    return
+                status = ctx.call("C03.process_again", conv.process, overwrite=(rerun == "overwrite"))
+                if status is ctx.CRASH:
+                    return
+                if not ctx.check(status == 1, "C03.status", lambda: f"second process() of the same converter returned {status}"):
+                    return
+                if not _verify_split(ctx, sg, root, D, shank, shanks, nap, opts, extra):
+                    return
+                if extra:
+                    import shutil
+                    for f in np2.shank_folders(root, extra=extra):
+                        shutil.rmtree(f)
+        finally:
+            try:
+                conv.sr.close()
+            except Exception:  # noqa
+                pass
         # ---- reconstruction: remove the original first (the reconstructor writes to the same place)
         for p in ap.parent.iterdir():
             p.unlink()
@@ -164,6 +169,31 @@ def run_case(case, ctx):
             ok, why = _meta_equal(dict(orig_meta), dict(rm))
             ctx.check(ok, "C03.recon_meta", lambda: "reconstructed metadata differs: " + why)
             ctx.check(rm.get("original_meta") in ("False", False), "C03.provenance_flag", lambda: f"original_meta = {rm.get('original_meta')!r}")
+
+
+def _verify_split(ctx, sg, root, D, shank, shanks, nap, opts, extra):
+    """Every shank folder <label><a..d><extra> holds exactly the original columns of its shank followed by sync, and opens."""
+    folders = np2.shank_folders(root, extra=extra)
+    if not ctx.check([f.name for f in folders] == ["probe00" + chr(97 + s) + extra for s in shanks], "C03.folders",
+                     lambda: f"shank folders {[f.name for f in folders]} for shanks {shanks}"):
+        return False
+    for s, fold in zip(shanks, folders):
+        f = np2.find_data(fold, "ap")
+        if not ctx.check(f is not None and (f.suffix == ".cbin") == bool(opts["compress"]), "C03.ap_file", lambda: f"ap file of shank {s}: {f}"):
+            return False
+        cols = np.r_[np.flatnonzero(shank == s), nap]
+        exp = D[:, cols]
+        got = np2.read_raw(f, len(cols))
+        if not ctx.check(got.shape == exp.shape and np.array_equal(got, exp), "C03.split_bytes",
+                         lambda: f"shank {s}: split AP file differs from the original columns ({_diff(got, exp)})"):
+            return False
+        # the shank file opens through the reader with a matching shape
+        srs = ctx.call("C03.open_shank", sg.Reader, f, sort=False)
+        if srs is ctx.CRASH:
+            return False
+        ctx.check(srs.shape == exp.shape, "C03.shank_shape", lambda: f"shank {s} reader shape {srs.shape} != {exp.shape}")
+        srs.close()
+    return True
 
 
 def _diff(got, exp):
